@@ -123,4 +123,31 @@ instance (st : MState) : Decidable (StateOk st) := by
 /-- expected `%XX`-encoding of the 20 hash bytes in the tracker request -/
 def hashBytesEnc (n : Nat) : Str := (toDigits 256 20 n).flatMap quoteByte
 
+/-- What `torrent()` must return (the property, and the method's documentation): with adopted
+    metadata the info section is **exactly** the adopted one — nothing of `dn` / `xl` survives —
+    and no fallback hash is needed; without, name and size come from `dn` / `xl` and the hash is
+    given explicitly as the 40-digit form of the magnet's hash.  Trackers and webseeds always are
+    the magnet's. -/
+def specTorrent {V : Type} (ofStr : Str → V) (ofInt : Int → V) (ih : Str) (f : Fields)
+    (adopted : Option (Info V)) : TorrentOut V :=
+  { info := match adopted with
+      | some a => a
+      | none => (match f.dn with | some d => [(kName, ofStr d)] | none => [])
+                ++ (match f.xl with | some n => [(kLength, ofInt n)] | none => []),
+    ownHash := match adopted with
+      | some _ => none
+      | none => some (hexLower40 (hashVal ih)),
+    trackers := f.tr, webseeds := f.ws }
+
+/-- What a history of `torrent()` calls, caller's edits of the results and changes of the magnet's
+    fields must show: every `torrent()` is the specified torrent for the fields held **then** and the
+    metadata adopted by `get_info()` — whatever the caller did to earlier results. -/
+def specRunT {V : Type} (ofStr : Str → V) (ofInt : Int → V) (ih : Str) (fields : Fields)
+    (adopted : Option (Info V)) : List (TOp V) → List (Except MErr (TorrentOut V))
+  | [] => []
+  | .torrent :: ops =>
+    torrentOf ofStr ofInt ih fields adopted :: specRunT ofStr ofInt ih fields adopted ops
+  | .edit _ _ :: ops => specRunT ofStr ofInt ih fields adopted ops
+  | .setFields f :: ops => specRunT ofStr ofInt ih f adopted ops
+
 end Torf.Magnet
